@@ -35,6 +35,8 @@ def special_grammars(ctx):
         "B <- ('x' { v := p.N; _ = v } / 'y' 'k'? { } / 'z' { v := 2; _ = v })?\n"
         "C <- (<'c'+> { v := len(p.T); _ = v } / 'd' { var v int; _ = v } / 'e')*\n"
         "N <- [0-9]+ { d := 0; _ = d }\n")
+    # a switch case whose sequence ends with something that prints nothing after an optional / a choice / a nested switch
+    add("trailnil", HDR + "S <- A B C !.\nA <- 'b' 'y' / 'a' 'x'? () / 'c' 'z'\nB <- 'd' / 'e' ('p' / 'q') () / 'f' 'g'? () ()\nC <- ('h' / 'i' ('r' / 's' / 't' 'u'?) () / 'j')?\n")
     add("cap", HDR + "S <- <<'a'> <'b'*>> <> !.\n", HDR + "S <- <<'a'> <'b'*>> <> !.\n")
     return gs
 
@@ -98,7 +100,10 @@ def check(ctx):
                     try:
                         nodes = P.parse_dump(r["linked"])
                         sexp, ptx, names, _ = P.linked_to_model(nodes)
-                        if "nilkey" not in sexp:
+                        # under -noast the user's action text is pasted into the rule functions: streams whose actions
+                        # contain their own blocks, declarations or nothing at all are compared in AST mode only
+                        usercode = g["id"] in ("locals", "braces", "predcmt", "predlinecmt", "noterm", "imports") and B.OPTSETS[o]["noast"]
+                        if "nilkey" not in sexp and not usercode and not (g["id"].startswith("many") and o not in ("d", "nis")):
                             from .. import emitskel
                             sk = emitskel.skeletons(open(pth, encoding="utf-8", errors="replace").read())
                             skels[cid] = (";".join(sk) if sk is not None else None, names, g, o)
@@ -106,7 +111,10 @@ def check(ctx):
                             mlines.append("emit %s %d %d %s" % (cid, 0 if B.OPTSETS[o]["noast"] else 1, 1 if B.OPTSETS[o]["inline"] else 0, P.undef_bits(nodes)))
                     except P.ConvError:
                         pass
-        rc_, out_, err_ = C.run([B.Model().exe], input="\n".join(mlines) + "\n", timeout=120)
+        rc_, out_, err_ = C.run(["bash", "-c", "ulimit -s unlimited 2>/dev/null; exec " + B.Model().exe], input="\n".join(mlines) + "\n", timeout=600)
+        if rc_ != 0:
+            problems.append(("the model driver failed on the dedicated streams (rc=%s): %s" % (rc_, err_[-300:]),
+                             {"why": "model driver", "broken": "model driver", "options": {}}))
         for line in out_.split("\n"):
             if line.startswith("emit "):
                 head, want = line.split(" :: ")
